@@ -92,12 +92,15 @@ def check(run: Run) -> None:
         by_op.setdefault(c["op"], []).append(i)
     res = [None] * len(cases)
     for op, idxs in by_op.items():
-        out = run_ops(op, [{"src": cases[i]["src"], "modes": cases[i]["modes"]} for i in idxs], limit=5.0)
+        out = run_ops(op, [{"src": cases[i]["src"], "modes": cases[i]["modes"]} for i in idxs], limit=5.0, hang_budget=150)
         for i, r in zip(idxs, out):
             res[i] = r
     traces = []
     for i, (c, r) in enumerate(zip(cases, res)):
         run.count_case(c["src"], nontrivial=len(c["src"]) > 1)
+        if r.get("skipped_after_hangs"):
+            run.note("not_run_after_150_timeouts")
+            continue
         if r.get("hang") and r.get("unconfirmed"):
             run.note("hang_candidates_not_confirmed")
             continue
